@@ -77,7 +77,7 @@ def run(ctx):
     import warnings
     warnings.filterwarnings("ignore")
     import wavespectra  # noqa
-    shapes = (1, 2, 3, 4) if ctx.quick else (1, 2, 3, 4, 5, 6)
+    shapes = (1, 2, 3, 4, 7) if ctx.quick else (1, 2, 3, 4, 5, 6, 7, 8)
     cfg = ws.write_cfg("dataset.cfg", "SPECIFICATION Spec\nCONSTANTS SHAPES = {%s}\n NSPEC = 3\n OPS = {\"op\"}\n"
                        "INVARIANT BatchEqualsSingle\nPROPERTY Isolation\nINVARIANT EmitInv\n" % ",".join(map(str, shapes)))
     r = ctx.tlc("Dataset", cfg, workers=4, label="shapes x fillings x edits")
@@ -92,6 +92,14 @@ def run(ctx):
                 "accessor; both dimension orders and dtypes. distinct_nontrivial = distinct (scenario, operation, layout).")
     ctx.rng.shuffle(scen)
     nscen = 10 if ctx.quick else 150
+    # stratified: the sample starts with two scenarios of every shape (so that every dimension layout, `part` included, is replayed)
+    first, rest, cnt = [], [], {}
+    for v in scen:
+        k = (tuple(v["shape"]), tuple(v["dims"]))
+        cnt[k] = cnt.get(k, 0) + 1
+        (first if cnt[k] <= 2 else rest).append(v)
+    scen = first + rest
+    nscen = max(nscen, len(first))
     spectra0 = [S.base_values(v)[0] for v in (1, 2, 3)]
     for iv, v in enumerate(scen[:nscen]):
         # in every third scenario the third spectrum is a calm record (all zeros): undefined ratios (0/0) at one position must not
@@ -111,7 +119,7 @@ def run(ctx):
         w0, w1 = aux(shape, dims, v["before"], dry), aux(shape, dims, v["after"], dry)
         idxs = list(np.ndindex(*shape))
         pe = v["edited"] - 1
-        ops = OPS if not ctx.quick else [op for op in OPS if hash((op, tuple(v["before"]), ctx.seed)) % 2 == 0 or op in ("ptm1", "ptm3", "ptm4", "hs", "tp", "smooth33", "mss_depth")]
+        ops = OPS if not ctx.quick else [op for op in OPS if hash((op, tuple(v["before"]), ctx.seed)) % 2 == 0 or op in ("ptm1", "ptm3", "ptm4", "hs", "tp", "smooth33", "mss_depth") or (op in ("rmse_rolled", "oned") and "part" in dims)]
         for op in ops:
             if op == "hmax_notime" and "time" in dims:
                 continue          # with a time axis hmax is a function of the whole axis (excluded by the property)
@@ -128,6 +136,13 @@ def run(ctx):
             rel = 3e-5 if dtype == "float32" else 1e-9
             if op in ("fit_jonswap", "fit_gaussian"):
                 rel = 1e-4
+            # every non-spectral dimension of the input is a dimension of the result: one value per position
+            lost = [d_ for d_ in dims if any(d_ not in x.dims for x in (list(r0.data_vars.values()) if hasattr(r0, "data_vars") else [r0]))]
+            if lost and op not in ("celerity", "wavelen"):       # (dispersion helpers without a depth: functions of the frequencies only)
+                ctx.violation({"op": op, "clause": "BatchEqualsSingle", "lost_dims": lost},
+                              "%s on a %s dataset returns no value per position: dimension(s) %s are missing from the result" % (op, dims, lost),
+                              {"order": order, "dtype": dtype, "shape": shape})
+                continue
             # Dataset accessor agrees with the accessor of efth
             d = S.same(S.project(rds), S.project(r0), 0.0, 0.0)
             if d:
